@@ -161,11 +161,30 @@ def intervals_for(ctx, bin_type):
     ev.run(f, env={"bin_type": strlit(bin_type)})
     inloop = [x for x in made if len(x[0]) == 4 and not all(isinstance(a, Rat) and a.is_const() for a in x[0][2:]) or True]
     # the constructor call inside the loop is the one whose bounds mention the loop variable / thresholds
-    cand = [x for x in made if any(isinstance(a, Rat) and "thresholds" in a.key() for a in x[0][:2])]
+    cand, seen = [], set()
+    for x in made:
+        if len(x[0]) == 4 and any(isinstance(a, Rat) and "thresholds" in a.key() for a in x[0][:2]):
+            k_ = tuple(a.key() if isinstance(a, Rat) else repr(a) for a in x[0])
+            if k_ not in seen:          # the same constructor value reached twice (helper + comprehension) is one interval shape
+                seen.add(k_)
+                cand.append(x)
     ctx.need(len(cand) == 1, "get_intervals(%r): expected one Interval(...) in the loop, found %d" % (bin_type, len(cand)))
-    args = cand[0][0]
-    ctx.need(len(ev.loops) == 1, "get_intervals: expected one loop")
-    it = ev.loops[0]["iter"]
+    args = list(cand[0][0])
+    # iteration space: the single `for` loop, or - for a comprehension - the sequence the returned list is mapped over
+    it = None
+    if len(ev.loops) == 1:
+        it = ev.loops[0]["iter"]
+    elif not ev.loops:
+        for o in ev.outcomes:
+            if o.kind == "return" and isinstance(o.value, Rat) and o.value.as_atom("map") is not None and "thresholds" in o.value.key():
+                mp_ = o.value.as_atom("map")
+                if len(mp_.args) == 2:
+                    it = mp_.args[1]
+    ctx.need(it is not None, "get_intervals: expected one loop")
+    # the name of the loop variable does not matter: the only symbol of the bounds besides the thresholds is the position
+    other = sorted(set(s_ for a in args[:2] if isinstance(a, Rat) for s_ in a.symbols()) - {"thresholds", "inf", "nan", "None"})
+    if len(other) == 1 and other[0] != "i":
+        args = [form.subst(a, {other[0]: S("i")}) if isinstance(a, Rat) else a for a in args]
     return args, it, cand[0][2]
 
 
